@@ -35,6 +35,20 @@ pub fn eval(scene: &Scene) -> Result<(u64, u64, bool), Violation> {
             let t = raqote::Transform::translation(-*x, -*y).then_scale(*iw as f32 / *sw, *ih as f32 / *sh);
             (*iw, *ih, data.clone(), false, true, xf_from(&t), o.alpha, cov_dev(w, h, &ctm, &PathSpec::rect(*x, *y, *sw, *sh), o.aa))
         }
+        // mask(): the coverage is the mask's bytes in device space, the source is positioned through
+        // the current transform like everywhere else
+        Op::Mask(mx, my, mw, mh, bytes, SrcSpec::Image { w: iw, h: ih, data, repeat, bilinear, xf }) => {
+            let mut cov = vec![0u8; (w * h).max(0) as usize];
+            for y in 0..h {
+                for x in 0..w {
+                    let (ix, iy) = (x - mx, y - my);
+                    if ix >= 0 && ix < *mw && iy >= 0 && iy < *mh {
+                        cov[(y * w + x) as usize] = bytes[(iy * mw + ix) as usize];
+                    }
+                }
+            }
+            (*iw, *ih, data.clone(), *repeat, *bilinear, *xf, 1.0, Ok(cov))
+        }
         _ => return Err(Violation::new("harness/unsupported-draw", case, "".to_string())),
     };
     let mut cov = cov.map_err(|p| Violation::new("reference/panic", case.clone(), p))?;
@@ -389,6 +403,44 @@ impl Check for C13 {
                                         }
                                     }
                                     Err(v) => run.report(70_000 + s, v),
+                                }
+                            }
+                        }
+                    }
+                }
+            });
+        }
+        // mask() with an image source under a current transform
+        {
+            let (w, h) = (9, 7);
+            let cs = ctms();
+            run.bound("mask() with image sources", format!("{} CTMs x 2 images x pad/repeat x nearest/bilinear x 3 source transforms x 2 masks (whole surface, a part at an offset; all 255) over white", cs.len()));
+            run.par(cs.len(), |s, l| {
+                let c = cs[s];
+                for (ii, &(iw, ih)) in [(3, 2), (2, 3)].iter().enumerate() {
+                    let data = image_of(iw, ih, &DISTINCT16, ii + 5);
+                    for repeat in [false, true] {
+                        for bilinear in [false, true] {
+                            for sxf in [IDENT, [1., 0., 0., 1., -2., 1.], [0.5, 0., 0., 0.5, 0.25, 0.5]] {
+                                // opaque texels only (mask() composites with SrcOver)
+                                let opaque: Vec<u32> = data.iter().map(|p| p | 0xff000000).collect();
+                                let src = SrcSpec::Image { w: iw, h: ih, data: opaque, repeat, bilinear, xf: sxf };
+                                for (mx, my, mw, mh) in [(0, 0, w, h), (2, 1, 5, 4)] {
+                                    let scene = Scene { w, h, dst: Dst::White, ops: vec![Op::SetTransform(c), Op::Mask(mx, my, mw, mh, vec![255u8; (mw * mh) as usize], src.clone())] };
+                                    l.states += 1;
+                                    l.transitions += 2;
+                                    l.traces += 1;
+                                    l.evals += 1;
+                                    match eval(&scene) {
+                                        Ok((hsh, n, interp)) => {
+                                            l.outcome(hsh);
+                                            l.count("pixels_checked", n);
+                                            if interp || n > 0 {
+                                                l.nontrivial += 1;
+                                            }
+                                        }
+                                        Err(v) => run.report(80_000 + s, v),
+                                    }
                                 }
                             }
                         }
